@@ -698,7 +698,11 @@ class SurfaceContainer(AbstractContainer):
             with utl.pool_context(processes=num_procs) as pool:
                 tmp_elem = pool.map(partial(process_tessellate, delta=self.delta, update_delta=update_delta, **kwargs),
                                     self._elements)
-                new_elems += tmp_elem
+            # The worker processes return copies of the surfaces. Update the surfaces in the container with them instead of
+            # replacing the surfaces; otherwise, the container would not contain the surfaces added by the user any more.
+            for elem, tmp in zip(self._elements, tmp_elem):
+                elem.__dict__.update(tmp.__dict__)
+                new_elems.append(elem)
         else:
             for idx in range(len(self._elements)):
                 tmp_elem = process_tessellate(self._elements[idx], delta=self.delta, update_delta=update_delta, **kwargs)
